@@ -267,6 +267,7 @@ class C08(Check):
                 ctx.violation(f"{tag}/raises-on-fractional-rank-spec/{cls}", f"{case}: {cls}: {e}")
             elif not (isinstance(e, np.linalg.LinAlgError)                                                     # singular block problem
                       or (isinstance(e, AssertionError) and "PARAFAC2 rank" in str(e))                          # documented: rank <= number of columns
+                      or (entry in ("parafac2", "Parafac2-class") and isinstance(rank, int) and rank > shape[1])   # no J_i x R matrix with orthonormal columns exists for R > J_i: not a valid request
                       or (isinstance(e, ValueError) and entry.startswith("tensor_ring") and "larger than" in str(e))  # documented TR-SVD restriction
                       or (isinstance(e, UnboundLocalError) and entry == "cmtf" and nit == 0)):                  # CMTF cannot run zero sweeps
                 # anything else on a valid request means no decomposition was returned at all
